@@ -17,7 +17,7 @@
 -/
 import LiquidModel.Drv.FilterOp
 import LiquidModel.Spec.C16
-namespace Liquid.Drv
+namespace Liquid.Drv.C16
 open Liquid Liquid.Codec Liquid.Html Liquid.Url
 
 inductive SObs where
@@ -213,4 +213,4 @@ def c16Filters (name : Str) : Option (V → List V → Res V) :=
 
 def c16FilterOp : List String → String := filterOp c16Filters noPanicSpec
 
-end Liquid.Drv
+end Liquid.Drv.C16
